@@ -148,6 +148,21 @@ def worlds(tier):
             for dname, reads in read_designs(p, k, T):
                 for B in (0, 4):
                     yield mk(seed, p, k, m, dname, reads, dict(block_cut_sensitivity=B, tag="PS", min_overlap=3), extra=False)
+    # all reads of the first haplotype skip one inner variant (reference skip); the other haplotypes cover it
+    for p, k in [(2, 5), (3, 5), (4, 5)] + ([(3, 6)] if T else []):
+        mats = list(hap_matrices(p, k))
+        mats = mats[:: max(1, len(mats) // (300 if T else 60))]
+        for m in mats:
+            for g in range(1, k - 1):
+                for B in (0, 4):
+                    reads = [(h, 0, k - 1, 2) for h in range(p)]
+                    inst = mk(seed, p, k, m, f"skip{g}", reads, dict(block_cut_sensitivity=B, tag="PS"))
+                    for r in inst["world"]["reads"]:
+                        if r["hap"] == 0:
+                            hi = inst["world"]["het_index"]
+                            r["segs"] = [[hi[0], hi[g - 1], 6, 6], [hi[g + 1], hi[k - 1], 6, 6]]
+                            r["link"] = "N"
+                    yield inst
     # two records on one coordinate with different ALT alleles (the second one is not read and must not be phased)
     for p, k in [(2, 3), (3, 3), (4, 3)] + ([(3, 4), (6, 3)] if T else []):
         mats = list(hap_matrices(p, k))
@@ -338,8 +353,7 @@ def judge(inst):
                 continue
             if r["chrom"] != "chrA":
                 continue
-            a_, b_ = r["segs"][0][0], r["segs"][0][1]
-            cov = [i for i in het if a_ <= i <= b_]
+            cov = [i for i in het if any(sg[0] <= i <= sg[1] for sg in r["segs"])]
             if len(cov) >= max(2, opts.get("min_overlap", 2)):
                 covered.update(cov)
         Vlist = sorted(covered)
